@@ -129,9 +129,10 @@ def make_seam(case):
 class Tables(object):
     """Keyed callback tables for one run (with call recording)."""
 
-    def __init__(self, case, labels):
+    def __init__(self, case, labels, index=None):
         self.seed = case["tabseed"]
-        self.index = {lab: i for i, lab in enumerate(labels)}
+        # index: label -> key used in the tables (default: position in labels)
+        self.index = index if index is not None else {lab: i for i, lab in enumerate(labels)}
         self.zero = case.get("zero_delays", True)
         self.calls = []
         self.count = {}
